@@ -197,7 +197,7 @@ impl SubCheck for Complete {
         "complete".into()
     }
     fn cases(&self, tier: Tier) -> u64 {
-        tier.pick(6_000, 60_000)
+        tier.pick(30_000, 400_000)
     }
     fn watchdog_secs(&self) -> u64 {
         60
@@ -234,7 +234,8 @@ impl SubCheck for Complete {
         let max = cfg::max_log_domain(tier);
         // sizes: mostly small/medium, the largest sizes sampled
         let sched = prop_oneof![
-            6 => cfg::sched_strategy(3, 8),
+            2 => cfg::sched_strategy(3, 5),
+            5 => cfg::sched_strategy(3, 8),
             3 => cfg::sched_strategy(3, 10),
             1 => cfg::sched_strategy(9, max),
         ];
@@ -504,7 +505,7 @@ impl SubCheck for FoldIdentity {
         "fold-identity".into()
     }
     fn cases(&self, tier: Tier) -> u64 {
-        tier.pick(40_000, 600_000)
+        tier.pick(60_000, 800_000)
     }
     fn watchdog_secs(&self) -> u64 {
         30
